@@ -36,7 +36,7 @@ func txnRules() []*Rule {
 		{ID: "JRNL-3", Props: []string{"C09", "C07"}, Min: 12,
 			Doc: "hot-journal recognition: magic equal to SQLite's, sector size in [512,65536], header and first sector fully present; anything else (absent, empty, zeroed, truncated) is `no journal`, only a non-ENOENT open failure is an error",
 			Run: runJrnl3},
-		{ID: "HDR", Props: []string{"C15"}, Min: 14,
+		{ID: "HDR", Props: []string{"C15", "C08"}, Min: 14,
 			Doc: "header layout (stream offsets of the decoded struct) equals fileformat2 §1.3 and the accepted value set of every validated field equals the spec; nothing else influences acceptance",
 			Run: runHdr},
 	}
@@ -677,6 +677,7 @@ func (p *Program) varInitBytes(pkg, name string) ([]byte, bool) {
 type fieldLayout struct {
 	Name         string
 	Offset, Size int
+	Signed       bool // a signed integer field: the bytes are read as two's complement
 }
 
 func binarySize(t types.Type) (int, bool) {
@@ -717,7 +718,11 @@ func streamLayout(st *types.Struct) ([]fieldLayout, int, bool) {
 		if !ok {
 			return nil, 0, false
 		}
-		out = append(out, fieldLayout{st.Field(i).Name(), off, n})
+		signed := false
+		if b, ok := st.Field(i).Type().Underlying().(*types.Basic); ok && b.Info()&types.IsInteger != 0 && b.Info()&types.IsUnsigned == 0 {
+			signed = true
+		}
+		out = append(out, fieldLayout{st.Field(i).Name(), off, n, signed})
 		off += n
 	}
 	return out, off, true
@@ -1198,6 +1203,22 @@ func runHdr(c *Ctx) {
 				cands = append(cands, v)
 			}
 		}
+		// the value the code sees for the bytes v: a field declared with a signed type reads them as two's complement
+		seen := func(v uint64) int64 {
+			for _, f := range lay {
+				if f.Offset == sp.Off && f.Size == sp.Size && f.Signed {
+					switch f.Size {
+					case 1:
+						return int64(int8(v))
+					case 2:
+						return int64(int16(v))
+					case 4:
+						return int64(int32(v))
+					}
+				}
+			}
+			return int64(v)
+		}
 		evalPath := func(ls []Lit, v uint64) (bool, bool) {
 			for _, l := range ls {
 				switch l.Subject {
@@ -1205,7 +1226,7 @@ func runHdr(c *Ctx) {
 					if !l.IsInt {
 						return false, false
 					}
-					if evalCmp(int64(v), l.Op, l.N) != l.Val {
+					if evalCmp(seen(v), l.Op, l.N) != l.Val {
 						return false, true
 					}
 				case "ones":
@@ -1290,7 +1311,7 @@ func runHdr(c *Ctx) {
 			}
 			seen[e.Name] = true
 			key := "result." + e.Name
-			if e.Name == "PageSize" && e.Val == "const:65536" {
+			if e.Name == "PageSize" && unconvTerm(e.Val) == "const:65536" {
 				// only on the path where raw == 1
 				var f fieldLayout
 				for _, fl := range lay {
@@ -1301,7 +1322,7 @@ func runHdr(c *Ctx) {
 				c.Check(lp.Holds(base+"."+f.Name, token.EQL, "1"), key+"=65536", e.Instr.Pos(), "page size 65536 is reported exactly when the raw field is 1")
 				continue
 			}
-			f, _, okf := fieldOfSubject(e.Val)
+			f, _, okf := fieldOfSubject(unconvTerm(e.Val))
 			c.Check(okf && f.Offset == off, key, e.Instr.Pos(), "header.%s is taken from the struct field at stream offset %d (got %s)", e.Name, off, e.Val)
 		}
 		for name := range want {
